@@ -2141,7 +2141,7 @@ fn remote_case(r: &mut Report, args: &Args, idx: u64, seed: u64) {
     for step in 0..steps {
         // --- something happens
         let fault = rng.weighted(&[50, 25, 25]); // none, unreachable, reply lost
-        let what = rng.weighted(&[30, 25, 20, 10, 15]);
+        let what = rng.weighted(&[25, 20, 15, 28, 12]);
         let mut desc = json!({"step": step});
         match what {
             0 => {
@@ -2177,8 +2177,15 @@ fn remote_case(r: &mut Report, args: &Args, idx: u64, seed: u64) {
                 desc["op"] = json!(format!("migrate {out:?} {out2:?}"));
             }
             3 => {
-                let out = hist::apply(&mut w, &Op::RollInit { ca: "x".into() });
-                desc["op"] = json!(format!("roll_init {out:?}"));
+                // start a roll, or activate the staged key: the following
+                // synchronisation then has a revocation request (and nothing
+                // else) to deliver
+                let staged = kvh::oracle::key_roles(&w, "x").classes.values()
+                    .any(|c| c.1 == "roll_new");
+                let op = if staged { Op::RollActivate { ca: "x".into() } }
+                         else { Op::RollInit { ca: "x".into() } };
+                let out = hist::apply(&mut w, &op);
+                desc["op"] = json!(format!("{} {out:?}", op.kind()));
             }
             _ => { desc["op"] = json!("nothing"); }
         }
